@@ -291,13 +291,13 @@ def lu_dom(f, e, use, depth=0):
     return None
 
 
-def index_domains(fb, rep):
-    rep.rule('R11.5', 'rational LU: every subscript of a permutation, diagonal, start/length or index/value array is an integer of that array\'s index domain '
-             '(row index, column index, pivot position, file offset), as far as the integer\'s origin is known', floor=400)
+def index_domains(fb, rep, rule='R11.5', suffix='clufactor_rational.hpp', what='rational LU', floor=400):
+    rep.rule(rule, what + ': every subscript of a permutation, diagonal, start/length or index/value array is an integer of that array\'s index domain '
+             '(row index, column index, pivot position, file offset), as far as the integer\'s origin is known', floor=floor)
     tot = known = ctl = 0
     for f in sorted(fb.funcs.values(), key=lambda g: (g.file, g.line, g.name)):
         isctl = f.name.startswith('verif_ctl::LuCtl')
-        if not (isctl or f.file.endswith('clufactor_rational.hpp')) or not f.nodes:
+        if not (isctl or f.file.endswith('/' + suffix)) or not f.nodes:
             continue
         seen = {}
         for n in f.nodes:
@@ -314,10 +314,10 @@ def index_domains(fb, rep):
             known += 1
             base = '%s|%s[%s]' % (f.short, b, render(strip(ix))[:20])
             seen[base] = seen.get(base, 0) + 1
-            rep.check(d == LU_REQ[b], 'R11.5', '%s#%d' % (base, seen[base]), '%s:%d' % (f.file, n.l), 'index is %s' % LU_WORD.get(d, d),
+            rep.check(d == LU_REQ[b], rule, '%s#%d' % (base, seen[base]), '%s:%d' % (f.file, n.l), 'index is %s' % LU_WORD.get(d, d),
                       '%s is subscripted by %s, which is %s (read from an array of such), but %s is addressed by %s: a different entry is read or written whenever row and column '
                       'permutation differ' % (b, render(strip(ix))[:30], LU_WORD.get(d, 'an ' + d), b, LU_WORD.get(LU_REQ[b], 'an ' + LU_REQ[b])))
     if ctl < 1:
-        raise AnalysisBroken('R11.5 positive control (LuCtl) did not fire')
-    rep.ok('R11.5', 'control|LuCtl::diag_by_column', 'units/controls.cpp', 'positive control fires', nontrivial=False)
-    rep.not_decided.append('R11.5: %d of %d subscripts of the typed arrays have an index whose origin is not an array of known value domain (loop counters, parameters): no verdict' % (tot - known, tot))
+        raise AnalysisBroken(rule + ' positive control (LuCtl) did not fire')
+    rep.ok(rule, 'control|LuCtl::diag_by_column', 'units/controls.cpp', 'positive control fires', nontrivial=False)
+    rep.not_decided.append(rule + ': %d of %d subscripts of the typed arrays have an index whose origin is not an array of known value domain (loop counters, parameters): no verdict' % (tot - known, tot))
